@@ -359,6 +359,46 @@ fn with_temp<T>(bytes: &[u8], f: impl FnOnce(&std::path::Path) -> T) -> T {
     f(t.path())
 }
 
+
+/// A by-path producer (`sam::fs::index`, …) that failed on a corpus document although the SAME uncompressed
+/// stream, re-blocked as a single BGZF member, is accepted by the same producer: the outcome depends on how the
+/// bytes are delivered (member layout = `fill_buf` windows). Recorded for C12; the index document is left out.
+#[derive(Clone, Debug)]
+pub struct ByPathFailure {
+    pub producer: String,
+    pub doc: String,
+    pub error: String,
+}
+
+static BY_PATH_FAILURES: std::sync::Mutex<Vec<ByPathFailure>> = std::sync::Mutex::new(Vec::new());
+
+/// By-path producer failures recorded while the corpus was built (empty on a tree where C12 holds).
+pub fn by_path_failures() -> Vec<ByPathFailure> {
+    BY_PATH_FAILURES.lock().unwrap().clone()
+}
+
+/// Runs a by-path producer on a BGZF corpus document. `Err` is a machinery error (the corpus is made of valid
+/// documents) unless the differential above shows that the failure is one of delivery.
+fn by_path<T>(producer: &str, d: &Doc, f: impl Fn(&std::path::Path) -> io::Result<T>) -> Option<T> {
+    match with_temp(&d.bytes, |p| f(p)) {
+        Ok(v) => Some(v),
+        Err(e) => {
+            let Some(inner) = d.inner.as_ref() else { fail(&format!("{producer} {}", d.name), e) };
+            let one = bgzip_at(&inner.bytes, &[]);
+            match with_temp(&one, |p| f(p)) {
+                Ok(_) => {
+                    let mut g = BY_PATH_FAILURES.lock().unwrap();
+                    if !g.iter().any(|x| x.producer == producer && x.doc == d.name) {
+                        g.push(ByPathFailure { producer: producer.into(), doc: d.name.clone(), error: e.to_string() });
+                    }
+                    None
+                }
+                Err(_) => fail(&format!("{producer} {}", d.name), e),
+            }
+        }
+    }
+}
+
 fn bai_for(doc: &Doc) -> Option<Vec<u8>> {
     let idx = with_temp(&doc.bytes, |p| bam::fs::index(p));
     let idx = ok(&format!("bam::fs::index {}", doc.name), idx);
@@ -566,8 +606,9 @@ fn build(thorough: bool) -> Vec<Doc> {
                 push(Format::Csi, "csi", csi_bytes(&ok(&format!("bcf::fs::index {}", d.name), idx)));
             }
             Format::SamGz if t => {
-                let idx = with_temp(&d.bytes, |p| sam::fs::index(p));
-                push(Format::Csi, "csi", csi_bytes(&ok(&format!("sam::fs::index {}", d.name), idx)));
+                if let Some(idx) = by_path("sam::fs::index", d, |p| sam::fs::index(p)) {
+                    push(Format::Csi, "csi", csi_bytes(&idx));
+                }
             }
             Format::VcfGz => push(Format::Tbi, "tbi", tbi_for(d)),
             Format::Bgzf => push(Format::Gzi, "gzi", gzi_for(d)),
@@ -1142,10 +1183,11 @@ fn build_extra(thorough: bool) -> Vec<Doc> {
     // ---- CSI of a bgzipped SAM (the quick corpus has none)
     if find(&base, "csi-of-samgz-mapped-f2").is_none() {
         let d0 = get("samgz-mapped-f2");
-        let idx = with_temp(&d0.bytes, |p| sam::fs::index(p));
-        let mut d = make_doc(Format::Csi, "csi-of-samgz-mapped-f2", "mapped", csi_bytes(&ok("sam::fs::index", idx)), false);
-        d.index_of = Some(d0.name.clone());
-        out.push(d);
+        if let Some(idx) = by_path("sam::fs::index", &d0, |p| sam::fs::index(p)) {
+            let mut d = make_doc(Format::Csi, "csi-of-samgz-mapped-f2", "mapped", csi_bytes(&idx), false);
+            d.index_of = Some(d0.name.clone());
+            out.push(d);
+        }
     }
     out
 }
